@@ -427,19 +427,27 @@ Definition locate_geo_info (fx : fixes) (tol : Q) (x : xobj) : res geostate :=
 Record pyslice := PySlice { s_start : option Z; s_stop : option Z; s_step : option Z }.
 
 (** slice.indices(n) followed by len(range(...)): (start, step, length) *)
+Definition slice_clamp (n lower upper v : Z) : Z :=
+  if v <? 0 then Z.max (v + n) lower else Z.min v upper.
+Definition slice_len (start stop step : Z) : Z :=
+  if step <? 0
+  then (if stop <? start then (start - stop - 1) / (- step) + 1 else 0)
+  else (if start <? stop then (stop - start - 1) / step + 1 else 0).
 Definition slice_adjust (n : Z) (s : pyslice) : res (Z * Z * Z) :=
   let step := match s_step s with Some v => v | None => 1 end in
   if step =? 0 then Err EValue
   else
     let lower := if step <? 0 then -1 else 0 in
     let upper := if step <? 0 then n - 1 else n in
-    let clampi (v : Z) := if v <? 0 then Z.max (v + n) lower else Z.min v upper in
-    let start := match s_start s with None => if step <? 0 then upper else lower | Some v => clampi v end in
-    let stop := match s_stop s with None => if step <? 0 then lower else upper | Some v => clampi v end in
-    let m := if step <? 0
-             then (if stop <? start then (start - stop - 1) / (- step) + 1 else 0)
-             else (if start <? stop then (stop - start - 1) / step + 1 else 0) in
-    Ok (start, step, m).
+    let start := match s_start s with
+                 | None => if step <? 0 then upper else lower
+                 | Some v => slice_clamp n lower upper v
+                 end in
+    let stop := match s_stop s with
+                | None => if step <? 0 then lower else upper
+                | Some v => slice_clamp n lower upper v
+                end in
+    Ok (start, step, slice_len start stop step).
 
 Definition slice_idx (n : Z) (s : pyslice) : res (list Z) :=
   '(start, step, m) <- slice_adjust n s ;;
